@@ -201,10 +201,21 @@ def _sort_shape(sh, sf, cI, shp, cells, k):
         inten = np.array([10.0 * c[0] + c[1] + 0.5 for c in order], np.float32)
         lab = np.array([c[0] * shp[1] + c[1] for c in order], np.int32)
         case = {"kind": "sort", "shape": list(shp), "cells": [list(c) for c in order]}
-        for method in ("sort", "sort_by", "from_data_mask,reorder,sort", "sort,reorder,sort", "sort_by(descending key),sort"):
+        for method in ("sort", "sort_by", "from_data_mask,reorder,sort", "sort,reorder,sort", "sort_by(descending key),sort",
+                       "sort[pixels carry row and col too, as SparseScan.getframe hands frames out]", "sort[pixel arrays are columns of one table]"):
             fr = sf.sparse_frame(row.copy(), col.copy(), shp, pixels={"intensity": inten.copy(), "lab": lab.copy()})
             try:
-                if method == "sort":
+                if method.startswith("sort[pixels carry"):
+                    r_, c_ = row.copy(), col.copy()
+                    fr = sf.sparse_frame(r_[0:], c_[0:], shp, pixels={"row": r_[0:], "col": c_[0:], "intensity": inten.copy(), "lab": lab.copy()})
+                    fr.sort()
+                elif method.startswith("sort[pixel arrays are columns"):
+                    table = np.empty((k, 2), np.float32)
+                    table[:, 0] = inten
+                    table[:, 1] = lab
+                    fr = sf.sparse_frame(row.copy(), col.copy(), shp, pixels={"intensity": table[:, 0], "lab": table[:, 1]})
+                    fr.sort()
+                elif method == "sort":
                     fr.sort()
                 elif method == "sort_by":
                     fr.sort_by("lab")      # lab is monotone in (row, col): same target order
